@@ -309,6 +309,7 @@ pub fn run(env: &Env) -> i32 {
         observe: 16,
         binds: 0,
         raw_choose: false,
+        eval_knots: false,
         max_ops: 30,
     };
     let n = env.cases(10000, 300000);
